@@ -5,6 +5,8 @@
 //! Stand-ins: `tracing`.
 //! @needs: socket
 use super::*;
+#[allow(unused_imports)]
+use crate::verif_env::k as kani;
 use crate::actor::socket::kani_h::{fake_socket, rtt_stub, send_stub, srt_stub, SENT_N, SENT_TO, SENT_TOKEN};
 use crate::common::{
     AnnouncePeerRequestArguments, AnnounceSignedPeerRequestArguments, PutImmutableRequestArguments,
